@@ -778,9 +778,20 @@ fn resolve_names_item_decl(ctx: &mut StaticsContext, symbol_table: &SymbolTable,
                         }
 
                         for (_, method_index) in method_set {
+                            // the type is not known if it contains an unresolved name or a wildcard
+                            let Some(ty) = iface_impl.typ.to_solved_type(ctx) else {
+                                ctx.errors.push(Error::GenericWithNode {
+                                    msg: format!(
+                                        "Implementation of interface `{}` is missing method `{}`.",
+                                        iface_def.name.v, iface_def.methods[method_index].name.v
+                                    ),
+                                    node: iface_impl.typ.node(),
+                                });
+                                continue;
+                            };
                             ctx.errors.push(Error::InterfaceImplMissingMethod {
                                 iface: iface_def.clone(),
-                                ty: iface_impl.typ.to_solved_type(ctx).unwrap(),
+                                ty,
                                 iface_impl_node: iface_impl.typ.node(),
                                 missing_method_index: method_index,
                             });
@@ -829,6 +840,9 @@ fn resolve_names_item_decl(ctx: &mut StaticsContext, symbol_table: &SymbolTable,
                 for variant in &enum_def.variants {
                     for field in &variant.fields {
                         resolve_names_typ(ctx, &symbol_table, &field.ty, false);
+                        if let Some(default_val) = &field.default_val {
+                            resolve_names_expr(ctx, &symbol_table, default_val);
+                        }
                     }
                 }
             }
@@ -1301,6 +1315,13 @@ fn resolve_names_func_helper_decl_only(
     args: &[ArgMaybeAnnotated],
     ret_type: &Option<Rc<Type>>,
 ) {
+    // a default value is evaluated at the call site: it sees the names around the function,
+    // not the function's parameters
+    for arg in args {
+        if let Some(default_val) = &arg.default_val {
+            resolve_names_expr(ctx, symbol_table, default_val);
+        }
+    }
     for arg in args {
         resolve_names_fn_arg(symbol_table, &arg.name);
         if let Some(ty_annot) = &arg.ty {
@@ -1320,6 +1341,13 @@ fn resolve_names_func_helper(
     body: &Rc<Expr>,
     ret_type: &Option<Rc<Type>>,
 ) {
+    // a default value is evaluated at the call site: it sees the names around the function,
+    // not the function's parameters
+    for arg in args {
+        if let Some(default_val) = &arg.default_val {
+            resolve_names_expr(ctx, symbol_table, default_val);
+        }
+    }
     for arg in args {
         resolve_names_fn_arg(symbol_table, &arg.name);
         if let Some(ty_annot) = &arg.ty {
